@@ -567,6 +567,19 @@ impl Table {
         }
     }
 
+    /// overwrite the value of an existing hash entry (by entry index)
+    pub fn set_entry_val(&mut self, ix: usize, val: Value) {
+        let e = &mut self.entries[ix];
+        let was_nil = e.val.is_nil();
+        let is_nil = val.is_nil();
+        e.val = val;
+        if was_nil && !is_nil {
+            self.live += 1;
+        } else if !was_nil && is_nil {
+            self.live -= 1;
+        }
+    }
+
     pub fn set_str(&mut self, key: &LStr, val: Value) {
         self.hash_set(Value::Str(key.clone()), val);
     }
